@@ -54,9 +54,13 @@ package manager
 //@ func (*Manager).handleUpdates
 //@   props C13 C12
 //@   requires Callbacks(m) && ta != nil && sc != nil && ctx != nil && !inSession[ta.name]
-//@   modifies ghost inSession, ghost connectsN, ghost resetsN, ghost sendTimerArmed, ghost streamRecvs
+//@   modifies ghost inSession, ghost connectsN, ghost resetsN, ghost sendTimerArmed, ghost armedTimers, ghost streamRecvs
 //@   invariant 0: streamRecvs >= old(streamRecvs) && resetsN == old(resetsN) && inSession[ta.name] == connected && connectsN[ta.name] == old(connectsN[ta.name]) + ite(connected, 1, 0)
 //@     && (forall k string :: k != ta.name ==> inSession[k] == old(inSession[k]) && connectsN[k] == old(connectsN[k]))
+//@   invariant 0: [receive-timeout-runs-only-while-receiving C13] (recvTimer != nil <==> ta.receiveTimeout > 0) && (recvTimer != nil ==> !has(armedTimers, recvTimer))
+//@     && spawns() == old(spawns()) + ite(ta.receiveTimeout > 0, 1, 0)
+//@   assert at call BidiStreamingClient.Recv#0: [receive-timeout-armed-while-receiving C13] recvTimer != nil ==> has(armedTimers, recvTimer)
+//@   ensures [one-watchdog-iff-a-receive-timeout-is-configured C13] spawns() == old(spawns()) + ite(ta.receiveTimeout > 0, 1, 0)
 //@   assert at call field Manager.connect#0: [connect-only-after-the-first-message C13] streamRecvs > old(streamRecvs)
 //@   ensures [stream-ends-only-on-error C13] res0 != nil
 //@   ensures [exactly-one-reset-ends-the-stream C13] resetsN[ta.name] == old(resetsN[ta.name]) + 1 && !inSession[ta.name]
@@ -71,7 +75,7 @@ package manager
 //@ func (*Manager).subscribe
 //@   props C13 C12
 //@   requires Callbacks(m) && ta != nil && ctx != nil && !inSession[ta.name] && subscribeClient != nil
-//@   modifies ghost inSession, ghost connectsN, ghost resetsN, ghost sendTimerArmed, ghost streamRecvs
+//@   modifies ghost inSession, ghost connectsN, ghost resetsN, ghost sendTimerArmed, ghost armedTimers, ghost streamRecvs
 //@   ensures [session-closed-on-return C13] !inSession[ta.name]
 //@   ensures [other-targets-untouched C13] forall k string :: k != ta.name ==> inSession[k] == old(inSession[k])
 
@@ -120,6 +124,7 @@ package manager
 //@   locks t
 //@   requires m != nil && t != nil && ctx != nil
 //@   ensures res0 != nil
+//@   ensures [fresh-subcontext-of-the-target-context C13] closed(ctxdone(res0)) ==> closed(ctxdone(ctx))
 
 //@ func NewManager
 //@   props C13 C12
@@ -156,7 +161,7 @@ package manager
 //@ func (*Manager).monitor
 //@   props C13 C12 C16
 //@   requires Wired(m) && ta != nil && ctx != nil && !inSession[ta.name]
-//@   modifies ghost inSession, ghost connectsN, ghost resetsN, ghost sendTimerArmed, ghost streamRecvs
+//@   modifies ghost inSession, ghost connectsN, ghost resetsN, ghost sendTimerArmed, ghost armedTimers, ghost streamRecvs
 //@   ensures [session-closed-on-return C13] !inSession[ta.name]
 //@   ensures [other-targets-untouched C13] forall k string :: k != ta.name ==> inSession[k] == old(inSession[k])
 // The release function createConn hands on (a connection manager's done function).
@@ -170,16 +175,27 @@ package manager
 // Connect is always preceded by the Reset of the previous session; the loop ends only
 // when the target's context is cancelled, and the completion signal is given exactly
 // once, after the last callback of the last attempt.
+//@ ghost boMark int
+//@ ghost meMark int
 //@ func (*Manager).retryMonitor
 //@   props C13 C12
 //@   requires Wired(m) && ta != nil && ctx != nil && !inSession[ta.name]
 //@   requires ta.finished != nil && !closed(ta.finished) && !isctxdone(ta.finished)
-//@   modifies ghost inSession, ghost connectsN, ghost resetsN, ghost sendTimerArmed, ghost streamRecvs, closed(ta.finished)
+//@   modifies ghost inSession, ghost connectsN, ghost resetsN, ghost sendTimerArmed, ghost armedTimers, ghost streamRecvs, closed(ta.finished), ghost boResets, ghost lastSince, ghost boMark, ghost meMark
 //@   invariant 0: [attempts-start-and-end-outside-a-session C13] !inSession[ta.name] && !closed(ta.finished) && sCtx != nil && timer != nil
 //@     && (forall k string :: k != ta.name ==> inSession[k] == old(inSession[k]))
+//@   invariant 0: [retries-never-give-up-and-back-off-as-configured C13] e != nil && e.MaxElapsedTime == 0 && e.InitialInterval == RetryBaseDelay && e.MaxInterval == RetryMaxDelay
+//@     && boResets > old(boResets)
+//@   invariant 0: [retry-timer-running-while-waiting C13] has(armedTimers, timer)
+//@   set at call (*Manager).monitor#0: boMark := boResets
+//@   set at call (*Manager).monitor#0: meMark := hits("call field Manager.monitorError#0")
+//@   assert at call (*Manager).monitor#0: [attempt-under-a-live-subcontext C13] !closed(ctxdone(sCtx)) || closed(ctxdone(ctx))
+//@   assert at call field Manager.monitorError#0: [only-a-failed-attempt-is-reported C13] arg1 != nil && arg0 == ta.name
+//@   assert at call (*github.com/cenkalti/backoff/v4.ExponentialBackOff).NextBackOff#0: [backoff-restarts-exactly-after-a-long-session C13] boResets == boMark + ite(lastSince > 2 * RetryMaxDelay, 1, 0)
+//@   assert at call (*github.com/cenkalti/backoff/v4.ExponentialBackOff).NextBackOff#0: [every-failed-attempt-is-reported C13] err != nil && m.monitorError != nil ==> hits("call field Manager.monitorError#0") == meMark + 1
 //@   ensures [finished-signalled-after-the-last-callback C13] closed(ta.finished) && !inSession[ta.name]
 //@ func (*Manager).retryMonitor$1
 //@   props C13 C12
 //@   requires m != nil && ta != nil && timer != nil && ta.finished != nil && !closed(ta.finished) && !inSession[ta.name]
-//@   modifies closed(ta.finished), ghost sendTimerArmed
+//@   modifies closed(ta.finished), ghost sendTimerArmed, ghost armedTimers
 //@   ensures closed(ta.finished)
